@@ -25,7 +25,7 @@ echo "## existing client tests with mutant (must be all ok):"
 for P in "$@"; do
   echo "## check $P against mutant:"
   OUT=$(mktemp -d /tmp/mutout.XXXX)
-  VERIF_REPO=$WT VERIF_OUT=$OUT VERIF_BUDGET_S=${BUDGET:-40} /verif/check $P quick 2>&1 | cut -c1-400 | grep -a "VIOLATION\|violation class\|minimised\|runs (\|HARNESS" | head -8
+  VERIF_REPO=$WT VERIF_OUT=$OUT VERIF_BUDGET_S=${BUDGET:-40} ${VERIF_HOME:-/verif}/check $P quick 2>&1 | cut -c1-400 | grep -a "VIOLATION\|violation class\|minimised\|runs (\|HARNESS" | head -8
   echo "exit=${PIPESTATUS[0]}"
   rm -rf $OUT/evidence; ls $OUT/replays/* 2>/dev/null | head -3
 done
